@@ -238,13 +238,6 @@ func c18RunChild(dir string, chunk uint32, seed uint64, n, delayUs int, extraEnv
 	return out, nil
 }
 
-type c18CrashCase struct {
-	id     int
-	chunk  uint32
-	seed   uint64
-	rounds int
-}
-
 func c18CrashPart(r *verifkit.Run) {
 	nCases := r.N(24, 500)
 	workers := r.N(6, 10)
